@@ -31,15 +31,56 @@ def regen(name):
     lib.write_if_changed(os.path.join(lib.COQ, "Gen", name + ".v"), text)
 
 
-def main():
-    bad = 0
+def regen_translated(verbose=False):
+    """every purely translated file, from the tree the checks run against.  Run at the start of EVERY check (2 s): a check must never build on a
+    generated file left behind by a run against another state of the tree.  A failing translator keeps the previous file; the owning check reports it."""
     for name in GENERATORS:
         try:
             regen(name)
-            print("regenerated", name)
-        except Exception as e:  # keep the committed file so that the rest of the development still builds
-            bad += 1
-            print("TRANSLATOR FAILED for %s: %r (keeping the previous file)" % (name, e))
+            if verbose:
+                print("regenerated", name)
+        except Exception as e:
+            if verbose:
+                print("TRANSLATOR FAILED for %s: %r (keeping the previous file)" % (name, e))
+
+
+def regen_measured(verbose=False):
+    """Detect_gen.v / AdapterMaps_gen.v also hold tables measured on the exporters' outputs: rebuilt here for setup, and by C13 / C12 on every run"""
+    import shutil
+    import tempfile
+    try:
+        from harness.props import c13
+        from translator import gen_detect
+        root = tempfile.mkdtemp(prefix="c13_setup_")
+        try:
+            c = lib.Check("C13", "quick", 1)
+            markers = gen_detect.markers(lib.REPO)
+            lib.write_if_changed(os.path.join(lib.COQ, "Gen", "Detect_gen.v"), gen_detect.generate(lib.REPO, c13.measure_signatures(c, markers, root)))
+        finally:
+            shutil.rmtree(root, ignore_errors=True)
+        if verbose:
+            print("regenerated Detect_gen (measured signatures)")
+    except Exception as e:
+        if verbose:
+            print("Detect_gen not regenerated: %r (keeping the previous file)" % (e,))
+    try:
+        from harness.props import c12
+        from translator import gen_adaptermaps
+        c = lib.Check("C12", "quick", 1)
+        measured = {k: c12.measured_agg_table(k) for k in c12.ADAPTERS}
+        lib.write_if_changed(os.path.join(lib.COQ, "Gen", "AdapterMaps_gen.v"), gen_adaptermaps.generate(lib.REPO, measured, c.open_findings))
+        if verbose:
+            print("regenerated AdapterMaps_gen (measured round-trip tables)")
+    except Exception as e:
+        if verbose:
+            print("AdapterMaps_gen not regenerated: %r (keeping the previous file)" % (e,))
+
+
+def main():
+    import warnings
+    warnings.filterwarnings("ignore")
+    regen_translated(verbose=True)
+    regen_measured(verbose=True)
     return 0
 
 
